@@ -25,6 +25,7 @@ def _case(draw, max_len):
     l1, l2 = len(case['s1']), len(case['s2'])
     case['ndim'] = ndim
     case['s3'] = draw(gen.series(1, max_len, 'L', ndim))
+    case['s4'] = draw(gen.series(1, max_len, 'L', ndim))
     case['dw'] = draw(st.integers(1, 3))
     p = gen.psi4(case['psi'])
     g = (draw(st.integers(p[0], l1)), draw(st.integers(p[1], l1)), draw(st.integers(p[2], l2)),
@@ -156,7 +157,9 @@ def run(case):
             if v is not None and exc is None and not ref.close(v, e):
                 res.fail(eng + ':window1-ed', 'window=1 distance %r != ed.distance %r' % (v, e))
     # distance matrix symmetric, zero diagonal, entry (a,b) = d(s[b], s[a])  (psi-free, the matrix has one psi for all)
-    S = [s1, s2, case['s3']]
+    # four series ordered by length, shortest first (the last pairs are the largest problems); mirroring the upper
+    # triangle is only valid if every entry is the distance of its own pair, whatever was computed before it
+    S = sorted([s1, s2, case['s3'], case.get('s4', case['s3'])], key=len)
     mkw = {'window': case['window'], 'penalty': case['penalty'], 'max_step': case['max_step'],
            'inner_dist': case['inner']}
     for eng in ('py', 'c'):
@@ -171,10 +174,10 @@ def run(case):
             continue
         M = np.asarray(M)
         f = dict(_engines(case))[eng]
-        for a in range(3):
+        for a in range(len(S)):
             if M[a, a] != 0:
                 res.fail(eng + ':matrix-diagonal', 'M[%d,%d]=%r' % (a, a, M[a, a]))
-            for b in range(3):
+            for b in range(len(S)):
                 if a == b:
                     continue
                 if not ref.close(M[a, b], M[b, a]):
